@@ -291,6 +291,7 @@ pub fn replay(paths: &Paths, file: &Path) -> i32 {
             }
         }
         Some("L") => tierl::replay(paths, &v, file),
+        Some("D") => crate::tierd::replay(paths, &v, file),
         _ => {
             eprintln!("envsim: unknown tier in replay file");
             2
@@ -428,10 +429,31 @@ pub fn check(paths: &Paths, tier: &str) -> i32 {
     }
     samples.extend(l.samples.iter().cloned());
 
+    // ---------------- tier D ----------------
+    let d_rounds = env_u64("VERIF_D_ROUNDS", if thorough { 8 } else { 1 });
+    let d = if d_rounds > 0 {
+        match crate::tierd::run_tier(paths, &ctx.corpus, seed, d_rounds, if thorough { 4 } else { 3 }, env_u64("VERIF_D_RUNS", if thorough { 1500 } else { 400 }), deadline, &known) {
+            Ok(d) => d,
+            Err(e) => {
+                eprintln!("envsim: harness error: {e}");
+                return 2;
+            }
+        }
+    } else {
+        crate::tierd::TierDOutcome { rounds: 0, runs: 0, wall_s: 0.0, distinct: 0, violations: vec![], known_hits: vec![], samples: vec![], stats: json!({"rounds": 0}) }
+    };
+    for (sig, path) in &d.violations {
+        violations.push((sig.clone(), path.clone()));
+    }
+    for k in &d.known_hits {
+        known_hits.insert(k.clone());
+    }
+    samples.extend(d.samples.iter().cloned());
+
     // ---------------- verdict + evidence ----------------
     let wall = t0.elapsed().as_secs_f64();
-    let evaluations = p_done + l.runs;
-    let distinct_nontrivial = nontrivial.len() as u64 + l.distinct_nontrivial;
+    let evaluations = p_done + l.runs + d.runs;
+    let distinct_nontrivial = nontrivial.len() as u64 + l.distinct_nontrivial + d.distinct;
     if samples.is_empty() {
         samples.push(json!({"note": "no non-trivial sample selected in this run"}));
     }
@@ -462,6 +484,7 @@ pub fn check(paths: &Paths, tier: &str) -> i32 {
                 "determinism_selfcheck_runs": sc_n,
             },
             "tier_L": l.stats,
+            "tier_D": d.stats,
             "corpus": {"entries": ctx.corpus.entries.len(), "siblings": "derived per run by PRNG (flip endianness, swap widths, add/drop field)"},
             "simulated_time": "the code under test has no timers; the simulated clock (epoch drawn in 1970..2100, steps 0..1 day per read, backward jumps) is an input perturbation, simulated time covered is therefore not a meaningful measure and is not claimed",
             "real_components": ["pdlc binary built from /repo (parser, analyzer, all five backends, main.rs)", "pdl-compiler library (tier L)", "Rust std, codespan-reporting, prettyplease, genco", "kernel file system for the java output directory"],
@@ -482,10 +505,13 @@ pub fn check(paths: &Paths, tier: &str) -> i32 {
         println!("KNOWN-FINDING: property=C11 {k}");
     }
     println!(
-        "C11: tier P {p_done} runs ({procs} processes, {:.1}s), tier L {} runs ({:.1}s); distinct non-trivial {distinct_nontrivial}; violations {}",
+        "C11: tier P {p_done} runs ({procs} processes, {:.1}s), tier L {} runs ({:.1}s), tier D {} rounds / {} workload runs ({:.1}s); distinct non-trivial {distinct_nontrivial}; violations {}",
         p_wall,
         l.runs,
         l.wall_s,
+        d.rounds,
+        d.runs,
+        d.wall_s,
         violations.len()
     );
     if violations.is_empty() {
